@@ -205,6 +205,8 @@ bool ends_with(const std::string &s, const char *suf)
 // pbt/fuzz.py has verified that the reproducer still crashes and passed the tag in VERIF_KNOWN_TAGS.
 //   parse_logic_op_nonboolean: the actions of `|`, `&`, `^` (xor, convert_xor off) and `~` in parser.yy
 //       rcp_static_cast their operands to Boolean unchecked  -> inputs containing such an operator.
+//   floor_nonfinite_double: floor(1e999): EvaluateRealDouble/ComplexDouble::floor|ceiling give a non-finite double to
+//       mpz_set_d (SIGFPE)                                    -> inputs containing an identifier ending in floor / ceil / ceiling.
 //   sbml_logic_nonboolean: the same in sbml_parser.yy (`&&`, `||`, `!`) and in SbmlParser::functionify
 //       (not / and / or / xor / piecewise)                   -> inputs containing such an operator or name.
 bool excluded_known(int kind, const std::string &s)
@@ -235,6 +237,18 @@ bool excluded_known(int kind, const std::string &s)
             std::string l = lower(w);
             if (ends_with(l, "not") || ends_with(l, "and") || ends_with(l, "or") || ends_with(l, "piecewise")) {
                 st.exclude("sbml_logic_nonboolean");
+                return true;
+            }
+        }
+    }
+    if (st.tag("floor_nonfinite_double")) {
+        // KF-C18-03: floor / ceiling (sbml: floor, ceil, ceiling) of an infinite or NaN double -> mpz_set_d raises SIGFPE
+        std::vector<std::string> words;
+        token_count(t, &words);
+        for (auto &w : words) {
+            std::string l = lower(w);
+            if (ends_with(l, "floor") || ends_with(l, "ceiling") || ends_with(l, "ceil")) {
+                st.exclude("floor_nonfinite_double");
                 return true;
             }
         }
